@@ -425,13 +425,19 @@ inline void Runner::load_known() {
 }
 
 inline Runner::Known *Runner::match_known(const std::string &sig) {
+  // Patterns: "x" exact, "x*" prefix, "*x" suffix, "*x*" substring.
   for (auto &k : known_) {
-    if (!k.sig.empty() && k.sig.back() == '*') {
-      if (sig.compare(0, k.sig.size() - 1, k.sig, 0, k.sig.size() - 1) == 0)
-        return &k;
-    } else if (k.sig == sig) {
-      return &k;
-    }
+    std::string p = k.sig;
+    if (p.empty()) continue;
+    const bool lead = p.front() == '*', trail = p.size() > 1 && p.back() == '*';
+    if (lead) p.erase(0, 1);
+    if (trail) p.pop_back();
+    bool m;
+    if (lead && trail) m = sig.find(p) != std::string::npos;
+    else if (lead) m = sig.size() >= p.size() && sig.compare(sig.size() - p.size(), p.size(), p) == 0;
+    else if (trail) m = sig.compare(0, p.size(), p) == 0;
+    else m = sig == p;
+    if (m) return &k;
   }
   return nullptr;
 }
@@ -932,7 +938,7 @@ inline int Runner::main() {
     if (viol_samples.size() < 5) viol_samples.push_back(j);
     out_lines.push_back("VIOLATION property=" + property + " replay=" + path);
     fprintf(stderr, "[%s] violation %s (%" PRIu64 " cases) first %s#%" PRIu64 ": %s | %s\n", property.c_str(), v.sig.c_str(), cnt,
-            v.space.c_str(), v.idx, desc.substr(0, 300).c_str(), v.detail.substr(0, 500).c_str());
+            v.space.c_str(), v.idx, desc.substr(0, 240).c_str(), v.detail.substr(0, 240).c_str());
   }
   // Vacuity guards.
   for (auto &r : required) {
